@@ -23,9 +23,8 @@ CONSTANTS = 'NCores = %d\n NGpus = %d\n' % (NCORES, NGPUS)
 
 INVARIANTS = ['TypeOK', 'InvNoShare', 'InvDemandMet', 'InvOccMatches', 'InvAllBack',
               'InvResultOnce', 'InvTarget', 'InvRouting', 'InvRestored']
-DEVS = ['DevNoDeallocOnSpawnFail', 'DevAllocIgnoresBusy', 'DevTimeoutRace',
-        'DevDupKillsWatcher', 'DevSysExitLost', 'DevTargetIgnoresMissing', 'DevNoSeen',
-        'DevEnvLeak']
+DEVS = ['DevNoDeallocOnSpawnFail', 'DevAllocIgnoresBusy', 'DevPutOutsideLock',
+        'DevDupKillsWatcher', 'DevTargetIgnoresMissing', 'DevNoSeen', 'DevEnvLeak']
 
 Q = R.req
 
